@@ -89,9 +89,7 @@ def run(tier, build, replay=None):
         out.coverage.update({"evaluations": n, "distinct_nontrivial": n, "rule": "replay of a to-date run"})
         return out.finish(proofs, build)
     if replay:
-        core.impl_env_setup()
-        data = {"cases": [replay], "impl": [hist.impl_compute(replay)],
-                "model": core.run_model([hist.line(10, hist.encode_hist(replay))])}
+        data = l2.run_cases([replay])          # (an end-to-end case goes through the files and parse_ods again)
     else:
         data = l2.run(tier)
     nontriv, mism = set(), 0
@@ -111,7 +109,7 @@ def run(tier, build, replay=None):
                               tags={"overspend-accepted"})
             if len(iv[1]) >= 3:
                 nontriv.add(core.case_hash(c))
-            if not bad and cov is None and len(ext_cases) < (1500 if tier == "quick" else 8000):
+            if not bad and cov is None and not l2.is_ods(c) and len(ext_cases) < (1500 if tier == "quick" else 8000):
                 e = sell_all_case(c, taken)
                 if e:
                     ext_cases.append(e)
@@ -156,6 +154,7 @@ def run(tier, build, replay=None):
         "traces_validated_against_impl": len(data["cases"]) + len(ext_cases),
         "correspondence_mismatches": mism,
         "distribution": stats,
+        "end_to_end_stream": hist.ods_stats(data["cases"]),
     })
     out.assumptions = ["amounts on the 1e-11 grid below 1e18", "optional crypto_out_with_fee, when supplied, is the amount leaving the holder"]
     return out.finish(proofs, build)
